@@ -60,7 +60,7 @@ func ExplainGsub(fontInfo *sfnt.Font) string {
 						to:   []glyph.ID{key + l.Delta},
 					})
 				}
-				ee.explainSeqMappings(mappings)
+				ee.explainSeqMappings(mappings, true)
 
 			case *gtab.Gsub1_2:
 				checkType(1)
@@ -71,7 +71,7 @@ func ExplainGsub(fontInfo *sfnt.Font) string {
 						to:   []glyph.ID{l.SubstituteGlyphIDs[idx]},
 					})
 				}
-				ee.explainSeqMappings(mappings)
+				ee.explainSeqMappings(mappings, true)
 
 			case *gtab.Gsub2_1:
 				checkType(2)
@@ -112,7 +112,7 @@ func ExplainGsub(fontInfo *sfnt.Font) string {
 						})
 					}
 				}
-				ee.explainSeqMappings(mappings)
+				ee.explainSeqMappings(mappings, false)
 
 			case *gtab.SeqContext1:
 				checkType(5)
@@ -401,7 +401,10 @@ type mapping struct {
 	to   []glyph.ID
 }
 
-func (ee *explainer) explainSeqMappings(mm []mapping) {
+// explainSeqMappings writes the given mappings.  If useRanges is true, runs
+// of one-to-one mappings with consecutive glyphs are written as ranges
+// (the GSUB4 syntax reads a glyph range as a ligature sequence instead).
+func (ee *explainer) explainSeqMappings(mm []mapping, useRanges bool) {
 	sort.SliceStable(mm, func(i, j int) bool {
 		return mm[i].from[0] < mm[j].from[0]
 	})
@@ -411,7 +414,7 @@ func (ee *explainer) explainSeqMappings(mm []mapping) {
 		ee.w.WriteString(sep)
 		sep = ", "
 
-		canRange := len(mm) > 2
+		canRange := useRanges && len(mm) > 2
 		for i := 0; canRange && i < len(mm); i++ {
 			if len(mm[i].from) != 1 || len(mm[i].to) != 1 {
 				canRange = false
